@@ -58,7 +58,8 @@ Definition set_eqb (a b : list Z) : bool := forallb (fun x => zmem x b) a && for
 Fixpoint first_bad {A} (f : A -> bool) (l : list A) : option A :=
   match l with [] => None | x :: t => if f x then first_bad f t else Some x end.
 
-Definition fuel_for (g : graph) : nat := (2 * length g + 4)%nat.
+(* the fuel for which Properties/C19.v proves that the model returns the specification *)
+Definition fuel_for (g : graph) : nat := ((length g + 1) * (length g + 1))%nat.
 
 (* what the oracle says for (g, r): reachable set, deletion table, idom list *)
 Definition tree_ok (ispecZ : list Z) (tree : list (Z * (list Z * list Z))) : bool :=
